@@ -240,6 +240,7 @@ func TestKeyIDs(t *testing.T) {
 		s.Eval()
 		s.Class(gen.TypeName(typ))
 		var id, wantID, reqID []byte
+		var again func() []byte
 		switch typ {
 		case 1:
 			key := gen.OPRFKey(oprf.SuiteP384, gen.Seed().Draw(t, "keyseed"))
@@ -250,6 +251,7 @@ func TestKeyIDs(t *testing.T) {
 			wantID = h[:]
 			iss := type1.NewBasicPrivateIssuer(key)
 			id = iss.TokenKeyID()
+			again = iss.TokenKeyID
 			if pk, _ := iss.TokenKey().MarshalBinary(); !bytes.Equal(pk, ser) {
 				rt.Fail(t, "C18/type1/public-key", "TokenKey() serialises to %x, crypto/elliptic gives %x", pk, ser)
 				return
@@ -269,7 +271,9 @@ func TestKeyIDs(t *testing.T) {
 			ser, _ := group.Ristretto255.NewElement().MulGen(sc).MarshalBinaryCompress()
 			h := sha256.Sum256(ser)
 			wantID = h[:]
-			id = type5.NewBatchedPrivateIssuer(key).TokenKeyID()
+			iss5 := type5.NewBatchedPrivateIssuer(key)
+			id = iss5.TokenKeyID()
+			again = iss5.TokenKeyID
 			sess, err := gen.NewSession(t, 5, gen.SessionOpts{OKey: key, MaxBatch: 3})
 			if err != nil {
 				t.Fatalf("harness: %v", err)
@@ -280,7 +284,9 @@ func TestKeyIDs(t *testing.T) {
 			k := gen.RSAPool()[idx]
 			h := sha256.Sum256(ref.TokenKeyPSS(k.N, big.NewInt(int64(k.E))))
 			wantID = h[:]
-			id = type2.NewBasicPublicIssuer(k).TokenKeyID()
+			iss2 := type2.NewBasicPublicIssuer(k)
+			id = iss2.TokenKeyID()
+			again = iss2.TokenKeyID
 			sess, err := gen.NewSession(t, 2, gen.SessionOpts{RKeyIdx: idx})
 			if err != nil {
 				t.Fatalf("harness: %v", err)
@@ -296,6 +302,7 @@ func TestKeyIDs(t *testing.T) {
 				t.Fatalf("harness: %v", err)
 			}
 			id = sess.Issuer3.TokenKeyID()
+			again = sess.Issuer3.TokenKeyID
 			nk := sess.Issuer3.NameKey().Marshal()
 			if len(nk) != 39 || nk[0] != 0x00 || !bytes.Equal(nk[1:3], []byte{0x00, 0x20}) || !bytes.Equal(nk[35:], []byte{0x00, 0x01, 0x00, 0x01}) {
 				rt.Fail(t, "C18/type3/name-key-layout", "issuer name key is not id||0020||pk(32)||0001||0001: %x", nk)
@@ -335,6 +342,11 @@ func TestKeyIDs(t *testing.T) {
 			for i := 0; i < 2; i++ {
 				enc := append([]byte{}, base...)
 				enc[0] = byte(gen.UniformRange(t, 0, 255, "keyid"))
+				if rapid.Bool().Draw(t, "otherSuite") {
+					// another KDF / AEAD of the HPKE registry (ids 1..3), so that kdf_id != aead_id
+					enc[36] = byte(gen.UniformRange(t, 1, 3, "kdf"))
+					enc[38] = byte(gen.UniformRange(t, 1, 3, "aead"))
+				}
 				kv, err := type3.UnmarshalEncapKey(enc)
 				if err != nil || !bytes.Equal(kv.Marshal(), enc) {
 					rt.Fail(t, "C18/type3/name-key-layout", "name key with key_id %#x does not round-trip (%v)", enc[0], err)
@@ -356,6 +368,19 @@ func TestKeyIDs(t *testing.T) {
 					rt.Fail(t, "C18/type3/name-key-id", "request %d carries name key id %x, SHA-256 of the name key (key_id %#x) it was created for is %x", i, st.Request().NameKeyID, nk.Marshal()[0], want)
 					return
 				}
+			}
+		}
+		if again != nil {
+			// the caller owns what TokenKeyID returned: overwriting it must not change what the issuer reports next
+			for i := range id {
+				id[i] ^= 0xFF
+			}
+			if id2 := again(); !bytes.Equal(id2, wantID) {
+				rt.Fail(t, fmt.Sprintf("C18/type%d/key-id-aliased", typ), "after the caller overwrote the slice returned by TokenKeyID(), the next TokenKeyID() returns %x, want %x", id2, wantID)
+				return
+			}
+			for i := range id {
+				id[i] ^= 0xFF
 			}
 		}
 		if !bytes.Equal(id, wantID) {
